@@ -34,7 +34,7 @@ FLOOR = {"quick": 20, "thorough": 120}
 
 
 def parts(tier):
-    return [{"name": "pairs", "n": 256 if tier == "quick" else 4000}]
+    return [{"name": "pairs", "n": 400 if tier == "quick" else 4000}]
 
 
 @gen.st.composite
